@@ -1,20 +1,32 @@
 #!/bin/sh
 # usage: eval_seed.sh <agent-tag e.g. c14a> <PROP> [scale] [testfiles...]
-# Confirms a seeded change produced by an independent agent (demo fails with it / passes without it, named tests pass with it),
-# stores it under /verif/seeded/<PROP>-<tag>/ and runs the check against it in a scratch worktree.
+# Confirms a seeded change produced by an independent agent IN A FRESH worktree of its own (patch applied to /repo HEAD,
+# extensions rebuilt if the patch touches C/Cython sources): demo fails with it / passes without it, named tests pass
+# with it.  Stores it under /verif/seeded/<PROP>-<tag>/ and runs the check against it (again in a scratch worktree).
 tag=$1; prop=$2; scale=${3:-0.5}; shift 3 2>/dev/null
-wt=/tmp/seed-$tag; out=/tmp/seed-$tag-out
+out=/tmp/seed-$tag-out
 dest=/verif/seeded/$prop-$tag
 mkdir -p $dest
 cp $out/patch.diff $out/demo.py $out/notes.md $dest/ 2>/dev/null
 cache=$(/venv/bin/python /verif/sim/build.py | tail -1)
+wt=/tmp/evalseed-$$
+git -C /repo worktree add -q --detach $wt HEAD || exit 3
+trap 'git -C /repo worktree remove --force '$wt' >/dev/null 2>&1' EXIT
+( cd $wt && git apply $dest/patch.diff ) || { echo "PATCH DOES NOT APPLY to /repo HEAD"; exit 3; }
+if grep -q '^+++ .*\.\(c\|h\|pyx\|pxd\)$' $dest/patch.diff; then
+  echo "--- patch touches C/Cython sources: building"
+  ( cd $wt && /venv/bin/python setup.py build_ext --inplace -j 8 > /tmp/evalseed-build-$$.log 2>&1 ) || { echo "BUILD FAILED"; tail -5 /tmp/evalseed-build-$$.log; exit 3; }
+  rm -f /tmp/evalseed-build-$$.log
+else
+  cp $cache/pkg/dtaidistance/*.so $wt/src/dtaidistance/
+fi
 echo "--- demo on unchanged tree (expects exit 0)"
-( cd /var/tmp && PYTHONPATH=$cache/pkg timeout 600 /venv/bin/python $dest/demo.py > $dest/demo_clean.log 2>&1; echo "exit=$?" )
+( cd /var/tmp && PYTHONPATH=$cache/pkg timeout 900 /venv/bin/python $dest/demo.py > $dest/demo_clean.log 2>&1; echo "exit=$?" )
 echo "--- demo with the change (expects exit 1)"
-( cd $wt && PYTHONPATH=$wt/src timeout 600 /venv/bin/python $dest/demo.py > $dest/demo_patched.log 2>&1; echo "exit=$?"; tail -3 $dest/demo_patched.log | cut -c1-200 )
+( cd $wt && PYTHONPATH=$wt/src timeout 900 /venv/bin/python $dest/demo.py > $dest/demo_patched.log 2>&1; echo "exit=$?"; tail -3 $dest/demo_patched.log | cut -c1-200 )
 if [ $# -gt 0 ]; then
   echo "--- tests with the change: $@"
-  ( cd $wt && PYTHONPATH=$wt/src timeout 1500 /venv/bin/python -m pytest -q -p no:cacheprovider --timeout=900 "$@" 2>&1 | tail -3 )
+  ( cd $wt && PYTHONPATH=$wt/src timeout 1500 /venv/bin/python -m pytest -q -p no:cacheprovider --timeout=900 "$@" 2>&1 | tail -2 )
 fi
 echo "--- check $prop against the change"
 TAILN=${TAILN:-6} /verif/selftest_run.sh $dest/patch.diff $prop $scale 2>&1 | grep -v "^\[build\]" | cut -c1-220
